@@ -62,7 +62,7 @@ func TestVerifC19_sum_ctor(t *testing.T) {
 	for _, m := range []uint64{0, 1, 2, 3, 255, 256, 1 << 32, 1<<63 - 2, 1<<63 - 1, 1 << 63, 1<<63 + 1, p - 1, p, p + 1, 1<<64 - 2, 1<<64 - 1} {
 		insts = append(insts, c19Sum(m))
 	}
-	s.UnitCtor(r, insts, []int{0, 1, 2, 3, 255})
+	s.UnitCtor(r, insts, []int{2, 3, 255, 0, 1})
 
 	// Consequence of an accepted bound with 2^bits >= modulus, shown on the real code: a measurement
 	// above the bound is accepted. Only runs while the constructor accepts such a bound.
@@ -126,6 +126,7 @@ func TestVerifC19_sum_agg(t *testing.T) {
 		FullShares:  []int{2, 3},
 		LightShares: []int{4, 8, 9, 255},
 		MaxBatch:    r.Pick(3, 4),
+		RTMaxBatch:  2,
 		Seeds:       r.Pick(3, 5),
 		DomainLimit: 8,
 	}
